@@ -411,10 +411,13 @@ def _toy_seq(d):
   counts = d['counts']
   if counts == 'all':
     counts = list(range(1, 2 * n + 3))
+  fns = d.get('fns', ['PointSequence', 'PointTable'])
   for cnt in counts:
-    expect_list(libcall(ec.PointSequence, lp, cnt), [E[i * t % n] for t in range(cnt)], p,
-                'PointSequence', i=i, count=cnt)
-    _check_table(libcall(ec.PointTable, lp, cnt), R, E[i], cnt, p, i=i)
+    if 'PointSequence' in fns:
+      expect_list(libcall(ec.PointSequence, lp, cnt), [E[i * t % n] for t in range(cnt)], p,
+                  'PointSequence', i=i, count=cnt)
+    if 'PointTable' in fns:
+      _check_table(libcall(ec.PointTable, lp, cnt), R, E[i], cnt, p, i=i)
   return {'nt': True, 'cls': ['point-sequence/table'] + _base_cls(c, form) +
                              (['zero-length'] if 0 in counts else []) +
                              (['base=infinity'] if i == 0 else [])}
@@ -479,20 +482,20 @@ def _toy_unred(d):
     Q = E[j]
     S, D = E[(i + j) % n], E[(i - j) % n]
     a, b = U(P), U(Q)
-    expect(N(libcall(ec.Add, a, b), p, 'Add'), S, 'Add(unreduced)', i=i, j=j, p=a, q=b)
+    expect(N(libcall(ec.Add, a, b), p, 'Add'), S, 'Add(unreduced)', i=i, j=j, pt=a, q=b)
     expect(N(libcall(ec.Subtract, a, b), p, 'Subtract'), D, 'Subtract(unreduced)', i=i, j=j,
-           p=a, q=b)
+           pt=a, q=b)
   a = U(P)
-  expect(N(libcall(ec.Negate, a), p, 'Negate'), E[-i % n], 'Negate(unreduced)', i=i, p=a)
-  expect(N(libcall(ec.Double, a), p, 'Double'), E[2 * i % n], 'Double(unreduced)', i=i, p=a)
+  expect(N(libcall(ec.Negate, a), p, 'Negate'), E[-i % n], 'Negate(unreduced)', i=i, pt=a)
+  expect(N(libcall(ec.Double, a), p, 'Double'), E[2 * i % n], 'Double(unreduced)', i=i, pt=a)
   order = mat.shuffle(range(n))
   qs = [U(E[j]) for j in order]
   sums = [E[(i + j) % n] for j in order]
   diffs = [E[(i - j) % n] for j in order]
   a = U(P)
-  expect_list(libcall(ec.BatchAdd, a, list(qs)), sums, p, 'BatchAdd(unreduced)', i=i, p=a)
+  expect_list(libcall(ec.BatchAdd, a, list(qs)), sums, p, 'BatchAdd(unreduced)', i=i, pt=a)
   expect_list(libcall(ec.BatchAddX, a, list(qs)), [_x(s) for s in sums], p, 'BatchAddX(unreduced)',
-              norm=NX, i=i, p=a)
+              norm=NX, i=i, pt=a)
   r = libcall(ec.BatchAddSubtractX, a, list(qs))
   expect_list(r[0], [_x(s) for s in sums], p, 'BatchAddSubtractX.sums(unreduced)', norm=NX, i=i)
   expect_list(r[1], [_x(s) for s in diffs], p, 'BatchAddSubtractX.diffs(unreduced)', norm=NX, i=i)
@@ -503,15 +506,40 @@ def _toy_unred(d):
   for k in (-n - 1, -2, -1, 0, 1, 2, 3, n - 1, n, n + 1):
     a = U(P)
     expect(N(libcall(ec.Multiply, a, k), p, 'Multiply'), E[i * k % n], 'Multiply(unreduced)',
-           i=i, k=k, p=a)
+           i=i, k=k, pt=a)
     expect(N(libcall(ec.MultiplyAffine, a, k), p, 'MultiplyAffine'), E[i * k % n],
-           'MultiplyAffine(unreduced)', i=i, k=k, p=a)
+           'MultiplyAffine(unreduced)', i=i, k=k, pt=a)
   return {'nt': True, 'cls': ['affine-unreduced-coordinates'] + _base_cls(c, form)}
+
+
+# ---- op 'unred1': one explicit pair of unreduced operands (replayable minimal form)
+
+def _toy_unred1(d):
+  c, form, i, j = d['c'], d['f'], d['i'], d['j']
+  _, E, _ = _toy(c)
+  n, p = c['n'], c['p']
+  conv = _conv(d.get('mpz', True))
+  ec = _lib_curve(c, form)
+  a = L(E[i], conv, d['kp'][0], d['kp'][1], p)
+  b = L(E[j], conv, d['kq'][0], d['kq'][1], p)
+  S, D = E[(i + j) % n], E[(i - j) % n]
+  info = dict(i=i, j=j, pt=a, q=b)
+  expect(N(libcall(ec.Add, a, b), p, 'Add'), S, 'Add(unreduced)', **info)
+  expect(N(libcall(ec.Subtract, a, b), p, 'Subtract'), D, 'Subtract(unreduced)', **info)
+  expect_list(libcall(ec.BatchAdd, a, [b]), [S], p, 'BatchAdd(unreduced)', **info)
+  expect_list(libcall(ec.BatchAddX, a, [b]), [_x(S)], p, 'BatchAddX(unreduced)', norm=NX, **info)
+  r = libcall(ec.BatchAddSubtractX, a, [b])
+  expect_list(r[0], [_x(S)], p, 'BatchAddSubtractX.sums(unreduced)', norm=NX, **info)
+  expect_list(r[1], [_x(D)], p, 'BatchAddSubtractX.diffs(unreduced)', norm=NX, **info)
+  expect_list(libcall(ec.BatchAddList, [a], [b]), [S], p, 'BatchAddList(unreduced)', **info)
+  kind = 'inf' if 0 in (i, j) else 'equal' if i == j else 'opposite' if (i + j) % n == 0 else 'generic'
+  return {'nt': kind != 'generic',
+          'cls': ['affine-unreduced-explicit-pair', 'unreduced-' + kind] + _base_cls(c, form)}
 
 
 _TOY_OPS = {'pair': _toy_pair, 'shift': _toy_shift, 'unary': _toy_unary, 'jac': _toy_jac,
             'mul': _toy_mul, 'bmg': _toy_bmg, 'seq': _toy_seq, 'binv': _toy_binv,
-            'unred': _toy_unred}
+            'unred': _toy_unred, 'unred1': _toy_unred1}
 
 
 def run_toy(d):
@@ -527,7 +555,7 @@ def _rows(n, full, mat_seed, extra=()):
   mat = Material(mat_seed, 'c11rows')
   s = {0, 1, 2, n - 1, n - 2, (n + 1) // 2, (n - 1) // 2}
   s.update(extra)
-  while len(s) < 24:
+  while len(s) < min(24, n):
     s.add(mat.below(n))
   return sorted(s)
 
@@ -593,7 +621,8 @@ def enum_toy_seq(tier):
 def enum_toy_seq0(tier):
   for c, form in toy_curves(tier)[:4]:
     for i in (0, 1):
-      yield {'op': 'seq', 'c': c, 'f': form, 'i': i, 'counts': [0], 'mpz': True}
+      for fn in ('PointSequence', 'PointTable'):
+        yield {'op': 'seq', 'c': c, 'f': form, 'i': i, 'counts': [0], 'fns': [fn], 'mpz': True}
 
 
 def enum_toy_binv(tier):
@@ -614,3 +643,517 @@ def enum_toy_unred(tier):
     n = c['n']
     for i in _rows(n, full, n + 6):
       yield {'op': 'unred', 'c': c, 'f': form, 'i': i, 'mpz': (i + ci) % 2 == 0}
+    # equal / opposite / infinity pairs with every combination of coordinate offsets
+    if n <= 40:
+      for i in range(n):
+        for j in sorted({i, -i % n, 0, 1}):
+          for kq in ([1, 0], [0, 1], [-1, 2], [2, -1]):
+            for kp in ([0, 0], [1, 1]):
+              yield {'op': 'unred1', 'c': c, 'f': form, 'i': i, 'j': j, 'kp': kp, 'kq': kq,
+                     'mpz': (i + j) % 2 == 0}
+
+
+# ---------------------------------------------------------------- toy curves, Hypothesis-drawn mixtures
+
+def run_toy_mix(d):
+  """Batched operations on lists of random length mixing every kind of special case."""
+  c, form = d['c'], d['f']
+  _, E, _ = _toy(c)
+  n, p = c['n'], c['p']
+  conv = _conv(d.get('mpz', True))
+  ec = _lib_curve(c, form)
+  mat = Material(d['m'], 'c11mix')
+  i = d['p'] % n
+  pairs = []
+  kinds = set()
+  for a, rel, b in d['pairs']:
+    a %= n
+    if rel == 'same':
+      b = a
+    elif rel == 'opp':
+      b = -a % n
+    elif rel == 'inf':
+      b = 0
+    elif rel == 'p':       # equal to the fixed point of BatchAdd
+      a = b = i
+    elif rel == '-p':
+      a = b = -i % n
+    else:
+      b %= n
+    pairs.append((a, b))
+  def kind(a, b):
+    if a == 0 or b == 0:
+      return 'inf'
+    if a == b:
+      return 'equal'
+    if (a + b) % n == 0:
+      return 'opposite'
+    return 'generic'
+  for a, b in pairs:
+    kinds.add(kind(a, b))
+  ps = [L(E[a], conv) for a, _ in pairs]
+  qs = [L(E[b], conv) for _, b in pairs]
+  expect_list(libcall(ec.BatchAddList, list(ps), list(qs)), [E[(a + b) % n] for a, b in pairs], p,
+              'BatchAddList', pairs=pairs)
+  expect_list(libcall(ec.BatchDouble, list(ps)), [E[2 * a % n] for a, _ in pairs], p, 'BatchDouble',
+              idx=[a for a, _ in pairs])
+  lp = L(E[i], conv)
+  kinds2 = {kind(i, b) for _, b in pairs}
+  sums = [E[(i + b) % n] for _, b in pairs]
+  diffs = [E[(i - b) % n] for _, b in pairs]
+  expect_list(libcall(ec.BatchAdd, lp, list(qs)), sums, p, 'BatchAdd', i=i, idx=[b for _, b in pairs])
+  expect_list(libcall(ec.BatchAddX, lp, list(qs)), [_x(s) for s in sums], p, 'BatchAddX', norm=NX,
+              i=i, idx=[b for _, b in pairs])
+  r = libcall(ec.BatchAddSubtractX, lp, list(qs))
+  if not isinstance(r, tuple) or len(r) != 2:
+    raise Violation('shape:pair-of-lists', fn='BatchAddSubtractX', got=repr(r)[:120])
+  expect_list(r[0], [_x(s) for s in sums], p, 'BatchAddSubtractX.sums', norm=NX, i=i,
+              idx=[b for _, b in pairs])
+  expect_list(r[1], [_x(s) for s in diffs], p, 'BatchAddSubtractX.diffs', norm=NX, i=i,
+              idx=[b for _, b in pairs])
+  reps = [LJ(rx.jac_rep(E[a], _lam(mat, p), p), conv) for a, _ in pairs]
+  expect_list(libcall(ec.BatchJacobianToAffine, list(reps)), [E[a] for a, _ in pairs], p,
+              'BatchJacobianToAffine', idx=[a for a, _ in pairs])
+  expect_list(libcall(ec.BatchJacobianToX, list(reps)), [_x(E[a]) for a, _ in pairs], p,
+              'BatchJacobianToX', norm=NX, idx=[a for a, _ in pairs])
+  ks = [int(k) for k in d['ks']]
+  if ks or d.get('bmg_empty'):
+    g = 1 + d['g'] % (n - 1)
+    ecg = _lib_curve(c, form, E[g])
+    half = len(ks) // 2
+    for part in (ks[:half], ks[half:]):     # the second call sees the first call's cache
+      expect_list(libcall(ecg.BatchMultiplyG, [conv(k) for k in part]), [E[g * k % n] for k in part],
+                  p, 'BatchMultiplyG', g=g, scalars=part)
+  _check_binv(ec, [None if v is None else v % p for v in d['inv']], p, conv)
+  cls = ['mix-len=%s' % ('0' if not pairs else '1' if len(pairs) == 1 else '2-8' if len(pairs) <= 8
+                         else '9+')]
+  cls += ['list-kinds=%d' % len(kinds), 'batchadd-kinds=%d' % len(kinds2)] + _base_cls(c, form)
+  return {'nt': len(kinds) >= 2 or len(kinds2) >= 2, 'cls': cls}
+
+
+def strat_toy_mix(tier):
+  curves = toy_curves(tier)
+  rel = st.sampled_from(['same', 'opp', 'inf', 'p', '-p', 'any', 'any', 'any'])
+  @st.composite
+  def s(draw):
+    c, form = draw(st.sampled_from(curves))
+    n = c['n']
+    idx = st.one_of(st.integers(0, n - 1), st.sampled_from([0, 0, 1, n - 1]))
+    pairs = draw(st.lists(st.tuples(idx, rel, idx).map(list), min_size=0,
+                          max_size=draw(st.sampled_from([1, 2, 4, 12, 40]))))
+    ks = draw(st.lists(st.one_of(st.integers(-3 * n, 3 * n), st.sampled_from([0, n, -n, 2 * n]),
+                                 st.integers(-2**20, 2**20)), max_size=12))
+    inv = draw(st.lists(st.one_of(st.none(), st.integers(0, c['p'] - 1), st.just(0)), max_size=20))
+    return {'c': c, 'f': form, 'p': draw(idx), 'pairs': pairs, 'ks': ks, 'g': draw(st.integers(0, n)),
+            'inv': inv, 'm': draw(material), 'mpz': draw(st.booleans()),
+            'bmg_empty': draw(st.booleans())}
+  return s()
+
+
+# ---------------------------------------------------------------- named curves
+
+NAMED = {}
+for _k, _c in ec_util.CURVE_FACTORY.items():
+  if _c is not None:
+    NAMED[paranoid_pb2.CurveType.Name(_k)] = _k
+NAMED_LIST = sorted(NAMED)
+_OSSL = {k.upper(): k for k in ec_ref.OPENSSL_NAMES}
+
+
+def _ref_name(enum_name):
+  """CURVE_SECP256R1 -> secp256r1 (the name refs/ec_ref.py files OpenSSL's parameters under)."""
+  return _OSSL.get(enum_name[len('CURVE_'):])
+
+
+def _named_lib(enum_name):
+  """A fresh copy (fresh caches) of the library's curve object."""
+  c = ec_util.CURVE_FACTORY[NAMED[enum_name]]
+  return ec_util.EcCurve(c.name, c.a, c.b, c.mod, c.g[0], c.g[1], c.n, c.h)
+
+
+_KG = {}
+
+
+def _kg(R, k, deep=False):
+  """k*G on the reference curve: OpenSSL, cross-checked (textbook double-and-add when deep)."""
+  k %= R.n
+  if k == 0:
+    return None
+  key = (R.name, k)
+  if key not in _KG:
+    P = ec_ref.openssl_mul_g(R.name, k)
+    if P is None:
+      P = R.mul(R.g, k)
+    assert R.on_curve(P)
+    if len(_KG) > 20000:
+      _KG.clear()
+    _KG[key] = P
+  P = _KG[key]
+  if deep:
+    assert R.mul(R.g, k) == P, 'the two oracles disagree'
+  return P
+
+
+def scalar(spec, n, nbits):
+  """Symbolic scalar -> integer."""
+  t = spec[0]
+  steps, teeth = rx.comb(nbits)
+  if t == 'n':          # multiple of the order plus a small offset
+    return spec[1] * n + spec[2]
+  if t == 'pow':        # 2^e + d
+    return (1 << spec[1]) + spec[2]
+  if t == 'pow8':       # 2^(8j) + d
+    return (1 << (8 * spec[1])) + spec[2]
+  if t == 'tooth':      # 2^(steps*j + i) + d : bit of comb tooth j in comb row i
+    j, i, dd = spec[1] % (len(teeth) + 1), spec[2] % steps, spec[3]
+    return (1 << (steps * j + i)) + dd
+  if t == 'mask':       # all teeth of row i
+    return sum(1 << u for u in teeth) << (spec[1] % steps)
+  if t == 'ones':       # 2^(nbits + e) - 1
+    return (1 << (nbits + spec[1])) - 1
+  if t == 'half':
+    return (n + 1) // 2 + spec[1]
+  if t == 'rand':
+    return Material(spec[1], 'c11scalar').below(n)
+  if t == 'raw':
+    return spec[1]
+  if t == 'neg':
+    return -scalar(spec[1], n, nbits)
+  raise AssertionError(spec)
+
+
+def st_scalar(nbits_max=530):
+  small = st.integers(-3, 3)
+  base = st.one_of(
+      st.tuples(st.just('n'), st.integers(-2, 3), st.integers(-3, 3)),
+      st.tuples(st.just('pow'), st.integers(0, nbits_max + 9), small),
+      st.tuples(st.just('pow8'), st.integers(0, 67), st.sampled_from([-1, 1, 0])),
+      st.tuples(st.just('tooth'), st.integers(0, 9), st.integers(0, 70), st.sampled_from([-1, 0, 1])),
+      st.tuples(st.just('mask'), st.integers(0, 70)),
+      st.tuples(st.just('ones'), st.integers(-2, 9)),
+      st.tuples(st.just('half'), st.integers(-1, 1)),
+      st.tuples(st.just('rand'), st.integers(0, 2**32)),
+      st.tuples(st.just('rand'), st.integers(0, 2**32)),
+      st.tuples(st.just('raw'), st.integers(-2**nbits_max, 2**nbits_max)),
+      st.tuples(st.just('raw'), st.integers(-300, 300)),
+  ).map(list)
+  return st.one_of(base, base, base.map(lambda s: ['neg', s]))
+
+
+def _scalar_cls(k, n):
+  out = []
+  if k % n == 0:
+    out.append('scalar=0 mod n')
+  if k < 0:
+    out.append('scalar<0')
+  if k >= n:
+    out.append('scalar>=n')
+  if k % n in (1, n - 1):
+    out.append('scalar=+-1 mod n')
+  return out
+
+
+def _named_pairs(R, d):
+  """Expands [[specA, specB or relation], ...] into scalar pairs."""
+  n, nb = R.n, R.n.bit_length()
+  out = []
+  for sa, sb in d['pairs']:
+    ka = scalar(sa, n, nb)
+    if sb[0] == 'same':
+      kb = ka + sb[1] * n
+    elif sb[0] == 'opp':
+      kb = -ka + sb[1] * n
+    elif sb[0] == 'near':
+      kb = sb[1] * ka + sb[2]
+    else:
+      kb = scalar(sb, n, nb)
+    out.append((ka % n, kb % n))
+  return out
+
+
+def _kind(ka, kb, n):
+  if ka % n == 0 or kb % n == 0:
+    return 'inf'
+  if (ka - kb) % n == 0:
+    return 'equal'
+  if (ka + kb) % n == 0:
+    return 'opposite'
+  return 'generic'
+
+
+def run_named_affine(d):
+  name = _ref_name(d['curve'])
+  R = ec_ref.named(name)
+  ec = _named_lib(d['curve'])
+  n, p = R.n, R.p
+  conv = _conv(d.get('mpz', True))
+  mat = Material(d['m'], 'c11named')
+  pairs = _named_pairs(R, d)
+  deep = bool(d.get('deep'))
+  A = [_kg(R, ka, deep) for ka, _ in pairs]
+  B = [_kg(R, kb) for _, kb in pairs]
+  S = [R.add(a, b) for a, b in zip(A, B)]
+  D = [R.sub(a, b) for a, b in zip(A, B)]
+  D2 = [R.add(a, a) for a in A]
+  for (ka, kb), s_, d_, d2 in zip(pairs, S, D, D2):   # the two oracles must agree
+    assert s_ == _kg(R, ka + kb) and d_ == _kg(R, ka - kb) and d2 == _kg(R, 2 * ka)
+  la = [L(a, conv) for a in A]
+  lb = [L(b, conv) for b in B]
+  kinds = set()
+  for idx, (ka, kb) in enumerate(pairs):
+    kinds.add(_kind(ka, kb, n))
+    info = dict(curve=name, ka=ka, kb=kb)
+    expect(N(libcall(ec.Add, la[idx], lb[idx]), p, 'Add'), S[idx], 'Add', **info)
+    expect(N(libcall(ec.Subtract, la[idx], lb[idx]), p, 'Subtract'), D[idx], 'Subtract', **info)
+    expect(N(libcall(ec.Double, la[idx]), p, 'Double'), D2[idx], 'Double', **info)
+    expect(N(libcall(ec.Negate, la[idx]), p, 'Negate'), R.neg(A[idx]), 'Negate', **info)
+    l1, l2 = _lam(mat, p), _lam(mat, p)
+    j1, j2 = LJ(rx.jac_rep(A[idx], l1, p), conv), LJ(rx.jac_rep(B[idx], l2, p), conv)
+    r = libcall(ec.AddJacobian, j1, j2)
+    expect(NJ(r, p, 'AddJacobian'), S[idx], 'AddJacobian', lam=[l1, l2], **info)
+    expect(N(libcall(ec.JacobianToAffine, r), p, 'JacobianToAffine'), S[idx],
+           'JacobianToAffine(AddJacobian)', lam=[l1, l2], **info)
+    expect(NJ(libcall(ec.DoubleJacobian, j1), p, 'DoubleJacobian'), D2[idx], 'DoubleJacobian',
+           lam=[l1], **info)
+  expect_list(libcall(ec.BatchAddList, list(la), list(lb)), S, p, 'BatchAddList', curve=name,
+              pairs=pairs)
+  expect_list(libcall(ec.BatchDouble, list(la)), D2, p, 'BatchDouble', curve=name)
+  kinds2 = set()
+  if pairs:
+    k0 = pairs[d['fixed'] % len(pairs)][0]
+    P0 = _kg(R, k0)
+    lp = L(P0, conv)
+    sums = [R.add(P0, b) for b in B]
+    diffs = [R.sub(P0, b) for b in B]
+    kinds2 = {_kind(k0, kb, n) for _, kb in pairs}
+    expect_list(libcall(ec.BatchAdd, lp, list(lb)), sums, p, 'BatchAdd', curve=name, k0=k0)
+    expect_list(libcall(ec.BatchAddX, lp, list(lb)), [_x(s) for s in sums], p, 'BatchAddX',
+                norm=NX, curve=name, k0=k0)
+    r = libcall(ec.BatchAddSubtractX, lp, list(lb))
+    if not isinstance(r, tuple) or len(r) != 2:
+      raise Violation('shape:pair-of-lists', fn='BatchAddSubtractX', got=repr(r)[:120])
+    expect_list(r[0], [_x(s) for s in sums], p, 'BatchAddSubtractX.sums', norm=NX, curve=name, k0=k0)
+    expect_list(r[1], [_x(s) for s in diffs], p, 'BatchAddSubtractX.diffs', norm=NX, curve=name,
+                k0=k0)
+  reps = [LJ(rx.jac_rep(a, _lam(mat, p), p), conv) for a in A]
+  expect_list(libcall(ec.BatchJacobianToAffine, list(reps)), A, p, 'BatchJacobianToAffine', curve=name)
+  expect_list(libcall(ec.BatchJacobianToX, list(reps)), [_x(a) for a in A], p, 'BatchJacobianToX',
+              norm=NX, curve=name)
+  vals = [None if v is None else Material(d['m'] + v, 'c11inv').below(p) if v > 1 else v
+          for v in d['inv']]
+  _check_binv(ec, vals, p, conv)
+  cls = ['named:%s' % name, 'named-affine/batch',
+         'list-kinds=%d' % len(kinds), 'batchadd-kinds=%d' % len(kinds2)]
+  cls += ['has-' + k for k in sorted(kinds | kinds2)]
+  return {'nt': len(kinds) >= 2 or len(kinds2) >= 2 or (len(pairs) == 1 and 'generic' not in kinds),
+          'cls': cls}
+
+
+def strat_named_affine(tier):
+  sc = st_scalar()
+  second = st.one_of(
+      sc, sc,
+      st.tuples(st.just('same'), st.integers(0, 1)).map(list),
+      st.tuples(st.just('opp'), st.integers(0, 1)).map(list),
+      st.tuples(st.just('near'), st.sampled_from([1, -1, 2, -2]), st.integers(-2, 2)).map(list),
+      st.just(['raw', 0]))
+  edge_first = st.sampled_from([['raw', 0], ['raw', 1], ['raw', -1], ['raw', 2], ['n', 1, -1],
+                                ['n', 1, 0], ['n', 1, 1], ['half', 0]])
+  pair = st.tuples(st.one_of(sc, edge_first), second).map(list)
+  return st.fixed_dictionaries({
+      'curve': st.sampled_from(NAMED_LIST),
+      'pairs': st.one_of(st.lists(pair, min_size=0, max_size=3), st.lists(pair, min_size=2, max_size=10)),
+      'fixed': st.integers(0, 9),
+      'inv': st.lists(st.one_of(st.none(), st.integers(0, 40)), max_size=10),
+      'm': material, 'mpz': st.booleans(),
+      'deep': st.integers(0, 15).map(lambda v: v == 0),
+  })
+
+
+def run_named_mul(d):
+  name = _ref_name(d['curve'])
+  R = ec_ref.named(name)
+  ec = _named_lib(d['curve'])
+  n, p, nb = R.n, R.p, R.n.bit_length()
+  conv = _conv(d.get('mpz', True))
+  kp = scalar(d['point'], n, nb)
+  P = _kg(R, kp, bool(d.get('deep')))
+  lp = L(P, conv)
+  cls = ['named:%s' % name, 'named-multiply']
+  nt = P is None
+  for spec in d['ks']:
+    k = scalar(spec, n, nb)
+    w = _kg(R, kp * k)
+    if d.get('deep'):
+      assert R.mul(P, k) == w, 'the two oracles disagree'
+    expect(N(libcall(ec.Multiply, lp, conv(k)), p, 'Multiply'), w, 'Multiply', curve=name, kp=kp, k=k)
+    expect(N(libcall(ec.MultiplyAffine, lp, conv(k)), p, 'MultiplyAffine'), w, 'MultiplyAffine',
+           curve=name, kp=kp, k=k)
+    c_ = _scalar_cls(k, n)
+    nt = nt or bool(c_)
+    cls += c_
+  cnt = d['count']
+  if cnt:
+    expect_list(libcall(ec.PointSequence, lp, cnt), [_kg(R, kp * t) for t in range(cnt)], p,
+                'PointSequence', curve=name, kp=kp, count=cnt)
+    _check_table(libcall(ec.PointTable, lp, cnt), R, P, cnt, p, curve=name, kp=kp)
+    cls.append('named-sequence/table')
+  return {'nt': nt, 'cls': sorted(set(cls))}
+
+
+def strat_named_mul(tier):
+  sc = st_scalar()
+  return st.fixed_dictionaries({
+      'curve': st.sampled_from(NAMED_LIST),
+      'point': st.one_of(sc, st.sampled_from([['raw', 1], ['raw', 0], ['raw', -1], ['raw', 2],
+                                              ['n', 1, -1], ['half', 0]])),
+      'ks': st.lists(sc, min_size=1, max_size=4),
+      'count': st.one_of(st.just(0), st.integers(1, 40)),
+      'mpz': st.booleans(),
+      'deep': st.integers(0, 15).map(lambda v: v == 0),
+  })
+
+
+def run_named_bmg(d):
+  name = _ref_name(d['curve'])
+  R = ec_ref.named(name)
+  n, p, nb = R.n, R.p, R.n.bit_length()
+  conv = _conv(d.get('mpz', True))
+  cls = ['named:%s' % name, 'named-batch-multiply-g']
+  nt = False
+  ec = _named_lib(d['curve'])
+  for call in d['calls']:      # consecutive calls on one object share its cache
+    ks = [scalar(s, n, nb) for s in call]
+    want = [_kg(R, k, bool(d.get('deep'))) for k in ks]
+    expect_list(libcall(ec.BatchMultiplyG, [conv(k) for k in ks]), want, p, 'BatchMultiplyG',
+                curve=name, scalars=ks)
+    for k in ks:
+      c_ = _scalar_cls(k, n)
+      nt = nt or bool(c_)
+      cls += c_
+    if any(k.bit_length() >= nb and k > 0 for k in ks):
+      cls.append('scalar-top-bit-set')
+  return {'nt': nt, 'cls': sorted(set(cls))}
+
+
+def strat_named_bmg(tier):
+  sc = st_scalar()
+  return st.fixed_dictionaries({
+      'curve': st.sampled_from(NAMED_LIST),
+      'calls': st.lists(st.lists(sc, min_size=0, max_size=5), min_size=1, max_size=2),
+      'mpz': st.booleans(),
+      'deep': st.integers(0, 31).map(lambda v: v == 0),
+  })
+
+
+def enum_named_edges(tier):
+  """Every named curve with the fixed edge operands and scalars of the property statement."""
+  edge_pts = [['raw', 0], ['raw', 1], ['raw', -1], ['raw', 2], ['n', 1, -1]]
+  for cname in NAMED_LIST:
+    c = ec_util.CURVE_FACTORY[NAMED[cname]]
+    nb = int(c.n).bit_length()
+    steps, teeth = rx.comb(nb)
+    pairs = [[a, b] for a in edge_pts for b in edge_pts]
+    yield ('affine', {'curve': cname, 'pairs': pairs, 'fixed': 1, 'inv': [None, 0, 1, 5, None, 7, 0],
+                      'm': 11, 'mpz': True, 'deep': True})
+    yield ('affine', {'curve': cname, 'pairs': pairs[::-1], 'fixed': 3, 'inv': [], 'm': 12,
+                      'mpz': False, 'deep': False})
+    ks = [['raw', 0], ['raw', 1], ['raw', -1], ['n', 1, -1], ['n', 1, 0], ['n', 1, 1], ['n', -1, 0],
+          ['n', 2, 0], ['n', 2, 1], ['ones', 0], ['ones', 1], ['half', 0]]
+    pw = [['pow8', j, dd] for j in range(0, nb // 8 + 2) for dd in (-1, 1)]
+    tb = [['tooth', j, i, dd] for j in range(len(teeth) + 1) for i in (0, 1, steps - 1)
+          for dd in (-1, 0, 1)]
+    mk = [['mask', i] for i in (0, 1, steps // 2, steps - 1)]
+    allk = ks + pw + tb + mk
+    allk = allk + [['neg', s] for s in allk[::3]]
+    yield ('bmg', {'curve': cname, 'calls': [allk, allk[::-5]], 'mpz': True, 'deep': False})
+    for pt in edge_pts + [['rand', 7]]:
+      for off in range(0, len(allk), 12):
+        yield ('mul', {'curve': cname, 'point': pt, 'ks': allk[off:off + 12],
+                       'count': 12 if off == 0 else 0, 'mpz': off % 24 == 0, 'deep': False})
+
+
+def run_named_edge(d):
+  kind, desc = d
+  return {'affine': run_named_affine, 'mul': run_named_mul, 'bmg': run_named_bmg}[kind](desc)
+
+
+# ---------------------------------------------------------------- curve constants
+
+def run_constants(d):
+  if d.get('registry'):
+    # the registry offers exactly the nine prime-field curves OpenSSL's parameters were taken for
+    have = sorted(_ref_name(k) or k for k in NAMED_LIST)
+    if have != sorted(ec_ref.OPENSSL_NAMES):
+      raise Violation('constants:registry', have=have, expected=sorted(ec_ref.OPENSSL_NAMES))
+    return {'nt': True, 'cls': ['constants:registry']}
+  cname = d['curve']
+  name = _ref_name(cname)
+  c = ec_util.CURVE_FACTORY[NAMED[cname]]
+  q = ec_ref.named_params()[name]
+  p, a, b, n = int(c.mod), int(c.a), int(c.b), int(c.n)
+  gx, gy = int(c.g[0]), int(c.g[1])
+  for field, got, want in (('p', p, q['p']), ('a', a % q['p'], q['a']), ('b', b, q['b']),
+                           ('gx', gx, q['gx']), ('gy', gy, q['gy']), ('n', n, q['n']),
+                           ('h', int(c.h), q['h'])):
+    if got != want:
+      raise Violation('constants:differs-from-openssl', curve=name, field=field, got=got, expected=want)
+  if not rx.is_prime(p) or not bool(gmpy.is_prime(p, 64)):
+    raise Violation('constants:field-not-prime', curve=name)
+  if not rx.is_prime(n) or not bool(gmpy.is_prime(n, 64)):
+    raise Violation('constants:order-not-prime', curve=name)
+  if (4 * a * a * a + 27 * b * b) % p == 0:
+    raise Violation('constants:singular', curve=name)
+  if not (0 <= gx < p and 0 <= gy < p) or (gy * gy - (gx * gx * gx + a * gx + b)) % p:
+    raise Violation('constants:generator-not-on-curve', curve=name)
+  R = ec_ref.RefCurve(p, a, b, gx, gy, n)      # built from the library's own constants
+  if R.mul(R.g, n) is not None or R.mul(R.g, 1) is None:
+    raise Violation('constants:generator-order', curve=name)
+  if R.mul(R.g, n - 1) != R.neg(R.g):
+    raise Violation('constants:generator-order', curve=name, what='(n-1)G != -G')
+  if (p + 1 - n) ** 2 > 4 * p:
+    raise Violation('constants:hasse-bound', curve=name)
+  if not libcall(c.OnCurve, c.g):
+    raise Violation('constants:OnCurve(G)-false', curve=name)
+  return {'nt': True, 'cls': ['constants:%s' % name]}
+
+
+def enum_constants(tier):
+  yield {'registry': True}
+  for cname in NAMED_LIST:
+    yield {'curve': cname}
+
+
+# ---------------------------------------------------------------- arms
+
+ARMS = [
+    Arm('toy_pairs', run_toy, enumerate=enum_toy_pairs, exhaustive=True, weight=3,
+        doc='all ordered pairs of every toy group through the affine/Jacobian/batched additions; '
+            'all elements through Negate/Double/BatchDouble'),
+    Arm('toy_jacobian', run_toy, enumerate=enum_toy_jac, exhaustive=True,
+        doc='every Jacobian representative of every element incl. every (l^2,l^3,0)'),
+    Arm('toy_multiply', run_toy, enumerate=enum_toy_mul, exhaustive=True, weight=2,
+        doc='every scalar in [-2n,2n] times every element: Multiply, MultiplyAffine'),
+    Arm('toy_batch_multiply_g', run_toy, enumerate=enum_toy_bmg, exhaustive=True,
+        doc='BatchMultiplyG with every generator and every scalar in [-2n,2n]'),
+    Arm('toy_sequence', run_toy, enumerate=enum_toy_seq, exhaustive=True, weight=4,
+        doc='PointSequence/PointTable for every length 1..2n+2'),
+    Arm('toy_sequence_empty', run_toy, enumerate=enum_toy_seq0, exhaustive=True,
+        doc='PointSequence/PointTable of length 0'),
+    Arm('toy_batch_inverse', run_toy, enumerate=enum_toy_binv, exhaustive=True,
+        doc='BatchInverse on every short list over GF(p) u {None}'),
+    Arm('toy_unreduced', run_toy, enumerate=enum_toy_unred, exhaustive=True,
+        doc='affine operands written with unreduced coordinates (x+kp, y+k\'p)'),
+    Arm('toy_mix', run_toy_mix, strategy=strat_toy_mix, quick=6000, thorough=100000,
+        doc='batched operations on random-length lists mixing all special cases'),
+    Arm('named_edges', run_named_edge, enumerate=enum_named_edges, exhaustive=True, weight=5,
+        doc='the fixed edge operands/scalars of the statement on all nine curves'),
+    Arm('named_affine', run_named_affine, strategy=strat_named_affine, quick=1600, thorough=30000,
+        weight=5),
+    Arm('named_multiply', run_named_mul, strategy=strat_named_mul, quick=1200, thorough=20000,
+        weight=5),
+    Arm('named_batch_multiply_g', run_named_bmg, strategy=strat_named_bmg, quick=800,
+        thorough=12000, weight=5),
+    Arm('constants', run_constants, enumerate=enum_constants, exhaustive=True, weight=6,
+        doc='CURVE_FACTORY constants vs OpenSSL; primality; discriminant; G; order; Hasse'),
+]
